@@ -65,9 +65,9 @@ type Scenario struct {
 	PreCancel bool      `json:"pre_cancel,omitempty"` // the context has ended before Loop is called
 	OnCtxEnd  string    `json:"on_ctx_end,omitempty"` // in-memory accepter: what Accept yields when the context ends ("" closed listener, "other", "ctxerr")
 	Salt      uint64    `json:"salt,omitempty"`
-	Pins    []sim.Pin `json:"pins,omitempty"`
-	NoHooks bool      `json:"no_hooks,omitempty"`
-	Steps   []Step    `json:"steps"`
+	Pins      []sim.Pin `json:"pins,omitempty"`
+	NoHooks   bool      `json:"no_hooks,omitempty"`
+	Steps     []Step    `json:"steps"`
 }
 
 type event struct {
